@@ -28,9 +28,9 @@ _uid = itertools.count()
 
 DIMS = {
     "length": [("m", 1.0), ("cm", 1e-2), ("km", 1e3), ("mm", 1e-3)],
-    "time": [("s", 1.0), ("min", 60.0), ("ms", 1e-3), ("h", 3600.0)],
+    "time": [("s", 1.0), ("min", 60.0), ("ms", 1e-3), ("h", 3600.0), ("us", 1e-6), ("ns", 1e-9)],
     "mass": [("kg", 1e3), ("g", 1.0), ("t", 1e6)],
-    "energy": [("J", None), ("erg", None), ("kg*m2/s2", None), ("kJ", None)],
+    "energy": [("J", None), ("erg", None), ("kg*m2/s2", None), ("kJ", None), ("eV", None), ("keV", None)],
 }
 for _d, _lst in DIMS.items():
     DIMS[_d] = [(u, R.factor_of_expression_text(u)) for u, _ in _lst]
@@ -85,8 +85,10 @@ def target_case(draw):
             if kind == "int" and unit is not None:
                 # keep the converted value an exact integer
                 f = R.factor_of_expression_text(unit) / R.factor_of_expression_text(dunit)
-                if f < 1:
+                if f < 1 and abs(round(1 / f) - 1 / f) < 1e-6 * (1 / f):
                     val = str(int(val) * int(round(1 / f)))
+                elif f < 1 or abs(round(f) - f) > 1e-6 * f:
+                    unit = None
         mods.append({"val": val, "unit": unit, "typed": draw(st.integers(0, 2)) == 0,
                      "addr": draw(st.sampled_from(["dotted", "indent", "mixed"])),
                      "noise": draw(st.integers(0, 2)) == 0})
@@ -275,7 +277,8 @@ def _check(case, v):
     elif case["kind"] in ("float", "int"):
         ok = not isinstance(got, (bool, str, list)) and close(got, exp, 1e-9, 1e-300)
         if case["kind"] == "int" and ok:
-            ok = float(got) == int(round(float(got)))
+            # an integer node holds an integer, also after a conversion whose float factor is inexact (1 us -> 1000 ns)
+            ok = isinstance(got, int) and got == int(round(float(exp)))
     elif case["kind"] == "farray":
         ok = isinstance(got, list) and len(got) == len(exp) and all(close(a, b, 1e-9, 1e-300) for a, b in zip(got, exp))
     else:
